@@ -30,14 +30,45 @@ impl Binder {
             body => return Err(ErrorKind::Todo("unknown set expr".into()).with_spanned(&body)),
         };
         let limit = match query.limit {
-            Some(expr) => self.bind_expr(expr)?,
+            Some(expr) => {
+                let id = self.bind_expr(expr.clone())?;
+                self.check_row_count(id, "LIMIT").map_err(|e| e.with_spanned(&expr))?;
+                id
+            }
             None => self.egraph.add(Node::null()),
         };
         let offset = match query.offset {
-            Some(offset) => self.bind_expr(offset.value)?,
+            Some(offset) => {
+                let id = self.bind_expr(offset.value.clone())?;
+                self.check_row_count(id, "OFFSET").map_err(|e| e.with_spanned(&offset.value))?;
+                id
+            }
             None => self.egraph.add(Node::zero()),
         };
         Ok(self.egraph.add(Node::Limit([limit, offset, child])))
+    }
+
+    /// LIMIT and OFFSET are row counts: the planner and the executor read them as constants of
+    /// type `usize` (and panicked on `LIMIT b`, `LIMIT -1`, `OFFSET -1`). Rejects an expression
+    /// that reads a column and a negative literal.
+    fn check_row_count(&self, id: Id, what: &str) -> std::result::Result<(), ErrorKind> {
+        let mut stack = vec![id];
+        while let Some(id) = stack.pop() {
+            match self.node(id) {
+                Node::Column(_) | Node::Ref(_) => {
+                    return Err(ErrorKind::InvalidExpression(format!(
+                        "{what} must be a constant"
+                    )));
+                }
+                Node::Neg(a) if matches!(self.node(*a), Node::Constant(_)) => {
+                    return Err(ErrorKind::InvalidExpression(format!(
+                        "{what} must not be negative"
+                    )));
+                }
+                node => stack.extend(node.children().iter().copied()),
+            }
+        }
+        Ok(())
     }
 
     /// Binds a CTE definition: `alias AS query`.
